@@ -127,6 +127,13 @@ pub fn check(case: &Case, obs: &Obs) -> CheckResult {
         }
     }
     // allocation count with allocation-free handlers
+    for p in &case.plans {
+        for d in &p.respond {
+            if let crate::rec::RespDatum::BigBlock(n) = d {
+                let _ = crate::rec::big_block(*n); // built (and allocated) once, outside the counted runs
+            }
+        }
+    }
     let leaked: &'static [UnitPlan] = Box::leak(case.plans.clone().into_boxed_slice());
     let caps = [MAX_CAP, l.min(MAX_CAP), l.saturating_sub(1).min(MAX_CAP), 0];
     let mut alloc_failure = None;
@@ -186,7 +193,7 @@ fn case_strategy() -> impl Strategy<Value = Case> {
             .iter()
             .map(|u| {
                 (typed_pulls(&u.data), response(), prop_oneof![30 => Just(None), 1 => err_spec().prop_map(Some)], any::<bool>())
-                    .prop_map(|(pulls, (headers, respond), fail, use_typed)| UnitPlan { pulls: if use_typed { pulls } else { vec![] }, greedy: true, headers, respond, fail })
+                    .prop_map(|(pulls, (headers, respond), fail, use_typed)| UnitPlan { pulls: if use_typed { pulls } else { vec![] }, greedy: true, headers, respond, fail, swallow: false })
                     .boxed()
             })
             .collect();
@@ -220,6 +227,10 @@ fn check_contrib(h: &crate::props::status_common::History, obs: &Obs) -> CheckRe
 }
 
 fn run(e: &Engine) {
+    if !cfg!(debug_assertions) {
+        let cases: Vec<Case> = crate::fixtree::size_boundary_plans().into_iter().map(|plans| Case { msg: crate::fixtree::query_message(1), plans }).collect();
+        e.fixed("size-boundary-responses", cases, check);
+    }
     e.proptest("mandated-commands-allocation", e.tier.pick(20_000, 400_000), || crate::props::status_common::history([6, 4, 4, 2, 2], 12, 0), check_contrib);
     e.proptest("every-capacity-and-allocation", e.tier.pick(40_000, 1_000_000), case_strategy, check);
     e.require_fraction("message succeeds", "allocation-counted run", 0.1);
